@@ -39,6 +39,7 @@ type scenario struct {
 	closeAt   int64
 	throttle  int
 	spool     bool
+	stutter   time.Duration
 }
 
 func (s scenario) String() string {
@@ -131,6 +132,12 @@ func run(sc scenario) outcome {
 			e.SetMode(ep.Throttled)
 		case "closing":
 			e.CloseAfter = sc.closeAt
+		case "stutter":
+			// alive the whole time, but it stops reading for a while (longer than any deadline the relay might put on a
+			// write) and then carries on: still a connection that stays up, so every line is received or counted
+			e.SetMode(ep.BlackHole)
+			resume := time.AfterFunc(sc.stutter, func() { e.SetMode(ep.Healthy) })
+			defer resume.Stop()
 		}
 	} else {
 		time.Sleep(5 * time.Millisecond)
@@ -244,7 +251,7 @@ func run(sc scenario) outcome {
 		if int(out.connDown) != out.handed {
 			out.accountErr = fmt.Sprintf("endpoint down with spooling off: %d lines handed, connection-down drop counter moved by %d (slow_conn %d)", out.handed, out.connDown, out.slowConn)
 		}
-	case "healthy", "throttled":
+	case "healthy", "throttled", "stutter":
 		// completion by sentinel through the same route
 		deadline := time.Now().Add(60 * time.Second)
 		sent := 0
@@ -345,6 +352,41 @@ func run(sc scenario) outcome {
 		e.Close()
 	}
 	return out
+}
+
+// TestPropStutteringEndpoint: the rare, expensive behaviour on its own (one case costs the pause): an endpoint that stays
+// connected but reads nothing for 11-14 s under traffic far beyond every buffer, then resumes.  Same oracle as a healthy
+// endpoint: bounded hand-off, sibling route unaffected, #handed = #received + slow_conn once the traffic has settled.
+func TestPropStutteringEndpoint(t *testing.T) {
+	rec := ev.Get("stuttering_endpoint")
+	rapid.Check(t, func(t *rapid.T) {
+		sc := scenario{
+			behaviour: "stutter",
+			rtype:     rapid.SampledFrom([]string{"sendAllMatch", "sendFirstMatch", "consistentHashing"}).Draw(t, "rtype"),
+			connbuf:   rapid.SampledFrom([]int{0, 10, 1000}).Draw(t, "connbuf"),
+			iobuf:     rapid.SampledFrom([]int{256, 4096, 65536, 2000000}).Draw(t, "iobuf"),
+			flush:     time.Duration(rapid.SampledFrom([]int{1, 100, 1000}).Draw(t, "flushMs")) * time.Millisecond,
+			volume:    rapid.SampledFrom([]int{2, 8}).Draw(t, "volumeMB") << 20,
+			lineLen:   rapid.SampledFrom([]int{30, 70, 200}).Draw(t, "linelen"),
+			stutter:   time.Duration(rapid.SampledFrom([]int{11, 12, 14}).Draw(t, "stutterS")) * time.Second,
+		}
+		o := run(sc)
+		if o.starved {
+			rec.Class("inconclusive:machine-starved", 1)
+			t.Skip("machine starved")
+		}
+		if o.stalled {
+			t.Fatalf("ingestion stalled with a stuttering endpoint %s (max hand-off latency %s)\n%s", sc, o.maxLatency, o.stacks)
+		}
+		if o.capGot != o.handed {
+			t.Fatalf("the healthy sibling route received %d of %d metrics while the other route's endpoint was %s", o.capGot, o.handed, sc)
+		}
+		if o.accountErr != "" {
+			t.Fatalf("%s (pause %s): %s", sc, sc.stutter, o.accountErr)
+		}
+		rec.Case(sc.String()+" pause="+sc.stutter.String(), o.backlog, "rtype="+sc.rtype, fmt.Sprintf("drops>0=%v", o.slowConn > 0))
+		rec.Num("lines_handed", int64(o.handed))
+	})
 }
 
 func TestPropBadEndpoint(t *testing.T) {
